@@ -43,3 +43,20 @@ Proof.
   intros H Hp J Hn G. destruct (w_set_file_name_some l m n rr H Hp J Hn G) as (_ & E). rewrite E.
   unfold last_w. rewrite rev_app_distr. reflexivity.
 Qed.
+
+(* a parent that is a bare drive (C:name -> C:): the name is written right after it *)
+Theorem w_set_file_name_bare_drive l m n rr d : w_file_name l = Some m -> w_parent l = Some rr ->
+  rr = [d; 58] -> s_alpha d = true -> noprefix n = true -> gn wany n ->
+  w_set_file_name l n = rr ++ n /\
+  wspec (w_set_file_name l n) = removelast (wspec l) ++ [WC (Normal n)].
+Proof.
+  intros H Hp -> Hd Hn G. unfold w_set_file_name, set_file_name. fold w_file_name w_pop. rewrite H.
+  rewrite w_pop_spec, Hp. cbn [fst].
+  pose proof (gn_not_rooted wany n G) as Hr. pose proof (gn_ne n G) as Hne.
+  pose proof (wspec_join_disk d [] n Hd Hn Hr Hne) as W. cbn [app] in W.
+  assert (J : w_push [d; 58] n = [d; 58] ++ n).
+  { rewrite w_push_join_spec, (join_spec_disk d [] n Hd Hn). unfold gjoin. destruct n as [|n0 nt] eqn:En; [congruence|]. rewrite <- En in *.
+    rewrite Hr. reflexivity. }
+  split; [exact J|]. rewrite W, (gcomps_gn wany wany_dot n G).
+  rewrite <- !w_components_wspec. rewrite <- (w_parent_reparse l [d; 58] Hp). rewrite w_components_wspec, (wspec_disk d [] Hd). reflexivity.
+Qed.
